@@ -261,7 +261,184 @@ def variant_noise3(src, fn):
     return None if v is None else v.replace("_fuzz_noise = None\n", "_fuzz_noise = str(0)\n")
 
 
-KINDS = {"noise3": variant_noise3, "swapind": variant_swapind, "swapif": variant_swapif, "rename": variant_rename, "flipcmp": variant_flipcmp, "noise": variant_noise, "noise2": variant_noise2}
+
+def _own_line(lines, st):
+    return not lines[st.lineno - 1][: st.col_offset].strip()
+
+
+def _walk_own(fn):
+    """nodes of fn excluding nested defs/classes"""
+    stack = list(ast.iter_child_nodes(fn))
+    while stack:
+        n = stack.pop()
+        yield n
+        if isinstance(n, (ast.FunctionDef, ast.AsyncFunctionDef, ast.ClassDef, ast.Lambda)):
+            continue
+        stack.extend(ast.iter_child_nodes(n))
+
+
+def variant_augassign(src, fn):
+    """`x += e` -> `x = x + e` (Name / self.attr targets, + and - only, value not a list/tuple display)"""
+    edits = []
+    for n in _walk_own(fn):
+        if isinstance(n, ast.AugAssign) and isinstance(n.op, (ast.Add, ast.Sub)) and isinstance(n.target, (ast.Name, ast.Attribute)) \
+                and not isinstance(n.value, (ast.List, ast.Tuple, ast.ListComp)):
+            t = ast.get_source_segment(src, n.target); v = ast.get_source_segment(src, n.value)
+            if t and v and "\n" not in v:
+                op = "+" if isinstance(n.op, ast.Add) else "-"
+                edits.append((n.lineno, n.col_offset, n.end_lineno, n.end_col_offset, "%s = %s %s (%s)" % (t, t, op, v)))
+    return apply_edits(src, edits) if edits else None
+
+
+def _terminates(body):
+    return isinstance(body[-1], (ast.Return, ast.Raise, ast.Continue, ast.Break))
+
+
+def variant_elseflat(src, fn):
+    """`if c: ...; return` + `else: B`  ->  `if c: ...; return` followed by B dedented (outermost ifs only)"""
+    lines = src.splitlines(keepends=True)
+    edits = []; taken = []
+    for n in ast.walk(fn):
+        if not (isinstance(n, ast.If) and n.orelse and _terminates(n.body)):
+            continue
+        if len(n.orelse) == 1 and isinstance(n.orelse[0], ast.If) and n.orelse[0].col_offset == n.col_offset:
+            continue
+        if not lines[n.lineno - 1][n.col_offset:].startswith("if "):
+            continue
+        if any(a <= n.lineno <= b for a, b in taken):
+            continue
+        b1 = n.body[-1].end_lineno
+        e0, e1 = n.orelse[0].lineno, n.orelse[-1].end_lineno
+        else_line = e0 - 1
+        while else_line > b1 and not lines[else_line - 1].strip().startswith("else"):
+            else_line -= 1
+        if else_line <= b1 or lines[else_line - 1].strip() != "else:":
+            continue
+        delta = n.orelse[0].col_offset - n.col_offset
+        seg = lines[else_line:e1]
+        # multi-line string literals inside the block make dedenting unsafe
+        if any(isinstance(x, ast.Constant) and isinstance(x.value, str) and x.end_lineno != x.lineno for st in n.orelse for x in ast.walk(st)):
+            continue
+        new = "".join((l[delta:] if l.strip() else l) for l in seg)
+        edits.append((else_line, 0, e1 + 1 if e1 < len(lines) else e1, 0 if e1 < len(lines) else len(lines[e1 - 1]), new))
+        taken.append((n.lineno, e1))
+    return apply_edits(src, edits) if edits else None
+
+
+def variant_elsewrap(src, fn):
+    """`if c: ...; return` followed by the rest R of the block  ->  `if c: ... return` `else: R` (function body level and
+    one nesting level; the if has no else)"""
+    lines = src.splitlines(keepends=True)
+    edits = []
+    def blocks(node):
+        for f in ("body", "orelse", "finalbody"):
+            b = getattr(node, f, None)
+            if isinstance(b, list) and b and isinstance(b[0], ast.stmt):
+                yield b
+    done = []
+    for holder in [fn] + [x for x in _walk_own(fn) if isinstance(x, (ast.For, ast.While, ast.With, ast.If))]:
+        for b in blocks(holder):
+            for i, st in enumerate(b[:-1]):
+                if isinstance(st, ast.If) and not st.orelse and _terminates(st.body) and _own_line(lines, st):
+                    rest = b[i + 1:]
+                    r0, r1 = rest[0].lineno, rest[-1].end_lineno
+                    if any(a <= r1 and r0 <= c for a, c in done) or any(a <= st.lineno <= c for a, c in done):
+                        continue
+                    if not all(_own_line(lines, r) for r in rest):
+                        continue
+                    if any(isinstance(x, ast.Constant) and isinstance(x.value, str) and x.end_lineno != x.lineno for r in rest for x in ast.walk(r)):
+                        continue
+                    # decorators / comments directly above rest[0] stay where they are (part of the text range)
+                    start = st.body[-1].end_lineno + 1
+                    seg = lines[start - 1:r1]
+                    ind = " " * st.col_offset
+                    new = ind + "else:\n" + "".join(("    " + l if l.strip() else l) for l in seg)
+                    edits.append((start, 0, r1 + 1 if r1 < len(lines) else r1, 0 if r1 < len(lines) else len(lines[r1 - 1]), new))
+                    done.append((st.lineno, r1))
+                    break
+    return apply_edits(src, edits) if edits else None
+
+
+def variant_retvar(src, fn):
+    """`return <expr>` -> `_fuzz_rv = <expr>` ; `return _fuzz_rv` (expression returns only)"""
+    lines = src.splitlines(keepends=True)
+    edits = []
+    for n in _walk_own(fn):
+        if isinstance(n, ast.Return) and n.value is not None and not isinstance(n.value, (ast.Constant, ast.Name)) and _own_line(lines, n):
+            v = ast.get_source_segment(src, n.value)
+            if not v:
+                continue
+            ind = " " * n.col_offset
+            edits.append((n.lineno, n.col_offset, n.end_lineno, n.end_col_offset, "_fuzz_rv = (%s)\n%sreturn _fuzz_rv" % (v, ind)))
+    if any(isinstance(x, (ast.Yield, ast.YieldFrom)) for x in _walk_own(fn)):
+        return None
+    return apply_edits(src, edits) if edits else None
+
+
+def variant_condsplit(src, fn):
+    """`if a and b: X` (no else) -> `if a:` / `    if b: X`"""
+    lines = src.splitlines(keepends=True)
+    edits = []; taken = []
+    for n in ast.walk(fn):
+        if isinstance(n, ast.If) and not n.orelse and isinstance(n.test, ast.BoolOp) and isinstance(n.test.op, ast.And) and _own_line(lines, n):
+            if not lines[n.lineno - 1][n.col_offset:].startswith("if "):
+                continue
+            if any(a <= n.lineno <= b for a, b in taken):
+                continue
+            if any(isinstance(x, ast.Constant) and isinstance(x.value, str) and x.end_lineno != x.lineno for st in n.body for x in ast.walk(st)):
+                continue
+            if any(isinstance(x, ast.NamedExpr) for x in ast.walk(n.test)):
+                continue
+            first = ast.get_source_segment(src, n.test.values[0])
+            rest = " and ".join("(" + ast.get_source_segment(src, v) + ")" for v in n.test.values[1:])
+            b0, b1 = n.body[0].lineno, n.body[-1].end_lineno
+            if n.body[0].lineno == n.test.end_lineno:
+                continue
+            ind = " " * n.col_offset
+            body = "".join(("    " + l if l.strip() else l) for l in lines[b0 - 1:b1])
+            # comments between header and body are carried with the header range; keep simple
+            new = ind + "if (" + first + "):\n" + ind + "    if " + rest + ":\n" + body
+            edits.append((n.lineno, 0, b1 + 1 if b1 < len(lines) else b1, 0 if b1 < len(lines) else len(lines[b1 - 1]), new))
+            taken.append((n.lineno, b1))
+    return apply_edits(src, edits) if edits else None
+
+
+def variant_annot(src, fn):
+    """type annotations on every un-annotated plain parameter (except self/cls) and a docstring-free `-> "object"`-less
+    signature: only parameters are touched"""
+    edits = []
+    for a in fn.args.posonlyargs + fn.args.args + fn.args.kwonlyargs:
+        if a.annotation is None and a.arg not in ("self", "cls"):
+            edits.append((a.lineno, a.col_offset, a.end_lineno, a.end_col_offset, a.arg + ': "object"'))
+    return apply_edits(src, edits) if edits else None
+
+
+def variant_withsplit(src, fn):
+    """`with a, b:` -> nested withs"""
+    lines = src.splitlines(keepends=True)
+    edits = []; taken = []
+    for n in ast.walk(fn):
+        if isinstance(n, ast.With) and len(n.items) > 1 and _own_line(lines, n) and n.items[-1].context_expr.end_lineno == n.lineno:
+            if any(a <= n.lineno <= b for a, b in taken):
+                continue
+            b0, b1 = n.body[0].lineno, n.body[-1].end_lineno
+            if any(isinstance(x, ast.Constant) and isinstance(x.value, str) and x.end_lineno != x.lineno for st in n.body for x in ast.walk(st)):
+                continue
+            ind = " " * n.col_offset
+            def item(it):
+                t = ast.get_source_segment(src, it.context_expr)
+                return t + (" as " + ast.get_source_segment(src, it.optional_vars) if it.optional_vars is not None else "")
+            new = ""
+            for k, it in enumerate(n.items):
+                new += ind + "    " * k + "with " + item(it) + ":\n"
+            extra = "    " * (len(n.items) - 1)
+            new += "".join((extra + l if l.strip() else l) for l in lines[b0 - 1:b1])
+            edits.append((n.lineno, 0, b1 + 1 if b1 < len(lines) else b1, 0 if b1 < len(lines) else len(lines[b1 - 1]), new))
+            taken.append((n.lineno, b1))
+    return apply_edits(src, edits) if edits else None
+
+
+KINDS = {"augassign": variant_augassign, "elseflat": variant_elseflat, "elsewrap": variant_elsewrap, "retvar": variant_retvar, "condsplit": variant_condsplit, "annot": variant_annot, "withsplit": variant_withsplit, "noise3": variant_noise3, "swapind": variant_swapind, "swapif": variant_swapif, "rename": variant_rename, "flipcmp": variant_flipcmp, "noise": variant_noise, "noise2": variant_noise2}
 
 
 def job(args):
